@@ -2,7 +2,8 @@
 import re
 
 from .. import lib, mir
-from ..mir import render
+from .. import lib_sec as S
+from ..mir import render, strip_generics
 
 EXPLANATION = ("SignedEnvelope::payload_and_signing_key returns Ok only after payload-type equality and verify(domain) == true; new and verify "
                "both go through signature_payload(domain, payload_type, payload) with their own envelope's fields, and signature_payload "
@@ -15,9 +16,110 @@ CONFIGS = [{"name": "identity-all-keys", "packages": ["libp2p-identity"], "featu
 C = "libp2p_core"
 I = "libp2p_identity"
 
+SELFTEST = [
+    {"mutation": "ed25519::PublicKey::verify: `.and_then(..)` -> `.map(..)`", "caught_by": "leafverify/ed25519::PublicKey::verify is true only if the library verified (msg, sig) under the key"},
+    {"neutral": "neutral/sec/08; ed25519 verify as `match Signature::try_from(sig) { Ok(s) => self.0.verify(msg, &s).is_ok(), Err(_) => false }`; `!(a == b)` for `a != b`; renamed parameters", "silent": True},
+]
 
 def oks(b):
-    return [mir.Site(b, x[1], x[2]) for x in b.defs[0] if x[0] == "stmt" and render(b.rvalue_expr(x[3])).startswith("std::result::Result::Ok{")]
+    return S.ok_sites(b)
+
+
+def callee_is(e, pat):
+    return e[0] == "call" and re.search(pat, strip_generics(e[1])) is not None
+
+
+LIBVERIFY = r"::(verify|verify_strict|verify_prehash|verify_digest)$"
+PARAM = "closure-param-%d"
+
+
+def _closure_of(prog, body, call):
+    cls = [a for a in call[2] if a[0] == "closure"]
+    if len(cls) != 1:
+        return None, {}
+    return S.closure_env(prog, body, cls[0])
+
+
+def _in_closure(cl, e, env):
+    """closure-body expression in the parent's terms: captured variables replaced by what was captured, the closure's own
+    parameters marked so that they cannot be confused with the parent's parameters"""
+    def f(x):
+        if x[0] == "arg":
+            return ("unknown", PARAM % x[1])
+        return x
+    return S.subst_upvars(S.emap(e, f), env)
+
+
+def ok_sound(prog, body, r, why, env=None, in_closure=None, depth=0):
+    """Result-valued expression `r` is Ok only if an external signature verification over (key of self, msg, sig) returned Ok."""
+    if depth > 4 or r[0] != "call":
+        why.append("not a verification result: %s" % render(r)[:80])
+        return False
+    n = strip_generics(r[1])
+    if re.search(LIBVERIFY, n) and not n.startswith("libp2p_identity::"):
+        args = [(_in_closure(in_closure, a, env) if in_closure is not None else a) for a in r[2]]
+        has_key = any(S.has(a, lambda x: x[0] == "arg" and x[1] == 1) for a in args)
+        has_msg = any(S.has(a, lambda x: x[0] == "arg" and x[1] == 2) for a in args)
+        has_sig = any(S.has(a, lambda x: (x[0] == "arg" and x[1] == 3) or (x[0] == "unknown" and x[1] == PARAM % 2)) for a in args)
+        if not (has_key and has_msg and has_sig):
+            why.append("verification operands are not (self's key, msg, sig): %s" % render(r)[:120])
+        return has_key and has_msg and has_sig
+    if re.search(r"Result::and_then$", n):
+        if not S.has(r[2][0], lambda x: x[0] == "arg" and x[1] == 3):
+            why.append("parsed value does not come from `sig`")
+            return False
+        cl, cenv = _closure_of(prog, body, r)
+        if cl is None:
+            why.append("and_then without a closure")
+            return False
+        rets = [cl.site_expr(s) for s in S.ret_sites(cl)]
+        return bool(rets) and all(ok_sound(prog, cl, x, why, cenv, cl, depth + 1) for x in rets)
+    why.append("`%s` does not propagate a verification failure" % n.split("::")[-1])
+    return False
+
+
+def bool_sound(prog, body, e, why, env=None, in_closure=None, depth=0):
+    """bool-valued expression `e` is true only if an external signature verification returned Ok."""
+    if depth > 4:
+        return False
+    if e[0] == "const":
+        if e[1] in (0, False):
+            return True
+        why.append("constant true result")
+        return False
+    if e[0] == "local":
+        ds = S.def_exprs(body, e[1])
+        return bool(ds) and all(bool_sound(prog, body, x, why, env, in_closure, depth + 1) for _, x in ds)
+    if e[0] != "call":
+        why.append("result is not derived from a verification: %s" % render(e)[:80])
+        return False
+    n = strip_generics(e[1])
+    if re.search(r"Result::is_ok$", n):
+        return ok_sound(prog, body, e[2][0], why, env, in_closure, depth + 1)
+    if re.search(r"Result::is_ok_and$|Option::is_some_and$", n) or (re.search(r"(Result|Option)::map_or$", n) and len(e[2]) == 3 and S.cval(e[2][1]) == 0):
+        if not S.has(e[2][0], lambda x: x[0] == "arg" and x[1] == 3):
+            why.append("parsed value does not come from `sig`")
+            return False
+        cl, cenv = _closure_of(prog, body, e)
+        if cl is None:
+            return False
+        rets = [cl.site_expr(s) for s in S.ret_sites(cl)]
+        return bool(rets) and all(bool_sound(prog, cl, x, why, cenv, cl, depth + 1) for x in rets)
+    if n.startswith("libp2p_identity::") and in_closure is None:
+        # one level into a crate-local helper (secp256k1: verify -> verify_hash): operands stay (self, f(msg), sig)
+        h = [b for b in prog.bodies(body.crate) if b.npath == n]
+        a = e[2]
+        if len(h) == 1 and len(a) == 3 and S.is_arg(S.peel(a[0]), 1) and S.has(a[1], lambda x: x[0] == "arg" and x[1] == 2) and S.is_arg(S.peel(a[2]), 3) and depth < 2:
+            return leaf_sound(prog, h[0], why, depth + 1)
+        why.append("helper %s is not called with (self, msg, sig)" % n.split("::")[-1])
+        return False
+    why.append("`%s` is not a verification outcome" % n.split("::")[-1])
+    return False
+
+
+def leaf_sound(prog, body, why, depth=0):
+    rets = [body.site_expr(s) for s in S.ret_sites(body)]
+    return bool(rets) and all(bool_sound(prog, body, x, why, None, None, depth) for x in rets)
 
 
 def check_identity(ctx):
@@ -27,17 +129,31 @@ def check_identity(ctx):
         b = ctx.body(I, fn + "$")
         n = 0
         for s in b.call_sites(r"^libp2p_identity::(ed25519|rsa|secp256k1|ecdsa)::"):
-            r = render(b.site_expr(s))
+            e = b.site_expr(s)
+            r = render(e)
             mod = re.match(r"^libp2p_identity::(\w+)::", mir.strip_generics(b.call_name(s.term))).group(1)
             if not re.search(r"::(verify|sign)$", mir.strip_generics(b.call_name(s.term))):
                 continue
-            v = re.search(r"self\.%s@(\w+)\.0" % field, r)
+            v = None
+            for x in mir.walk(e[2][0]):
+                if x[0] == "downcast" and S.has(x[1], lambda y: y[0] == "arg" and y[1] == 1):
+                    v = x[2]
             n += 1
-            ok = v is not None and {"Ed25519": "ed25519", "Rsa": "rsa", "Secp256k1": "secp256k1", "Ecdsa": "ecdsa"}.get(v.group(1)) == mod
-            ctx.ob("dispatch", "%s: variant %s handled by module %s" % (fn.split("::")[-1], v.group(1) if v else "?", mod), ok, s.loc(), r[:160])
+            ok = v is not None and {"Ed25519": "ed25519", "Rsa": "rsa", "Secp256k1": "secp256k1", "Ecdsa": "ecdsa"}.get(v) == mod
+            ctx.ob("dispatch", "%s: variant %s handled by module %s" % (fn.split("::")[-1], v or "?", mod), ok, s.loc(), r[:160])
             if fn.endswith("verify"):
-                ctx.ob("dispatch", "verify passes (msg, sig) through unchanged (%s)" % mod, r.endswith(", msg, sig)"), s.loc(), r[-60:])
+                ctx.ob("dispatch", "verify passes (msg, sig) through unchanged (%s)" % mod, len(e[2]) == 3 and S.is_arg(S.peel(e[2][1]), 2) and S.is_arg(S.peel(e[2][2]), 3), s.loc(), r[-60:])
         ctx.ob("dispatch", "floor:%s arms" % fn.split("::")[-1], n >= 1, nontrivial=False, msg="%d arms" % n)
+    # leaf verification of every compiled-in key type: `true` only on the Ok edge of the library's verification of (msg, sig)
+    leaves = prog.find(I, r"^libp2p_identity::(ed25519|rsa|secp256k1|ecdsa)::PublicKey::verify$")
+    ctx.floor("leafverify", "key-type verify functions", leaves, 1)
+    for b in leaves:
+        ctx.use(b)
+        why = []
+        ok = leaf_sound(prog, b, why)
+        mod = b.npath.split("::")[1]
+        ctx.ob("leafverify", "%s::PublicKey::verify is true only if the library verified (msg, sig) under the key" % mod, ok, "%s:%d" % (b.file, b.line),
+               "every returned value is `false` or the Ok-ness of the external verification of (self's key, msg, parsed sig)" if ok else "; ".join(why)[:300])
 
 
 def check(ctx):
@@ -46,17 +162,16 @@ def check(ctx):
     if ctx.config != "default":
         return
     SE = r"signed_envelope::SignedEnvelope::"
-    ps = ctx.body(C, SE + r"payload_and_signing_key$")
+    ps = S.canon_args(ctx.body(C, SE + r"payload_and_signing_key$"), ["self", "domain_separation", "expected_payload_type"])
+    same_type = S.rel_edges(ps, lambda e: S.self_field(e, "payload_type"), lambda e: S.is_arg(S.peel(e), 3))["eq"]
+    sig_ok, _ = S.truth_edges(ps, lambda c: callee_is(c, r"signed_envelope::SignedEnvelope::verify$") and S.is_arg(S.peel(c[2][0]), 1) and S.is_arg(S.peel(c[2][1]), 2))
     for s in oks(ps):
-        ctx.guarded("envelope", "Ok only for the expected payload type", s, lambda c, r, l: l == "false" and r.startswith("std::cmp::PartialEq::ne(self.payload_type, expected_payload_type)") or
-                    (l == "false" and "ne(" in r and "self.payload_type" in r and "expected_payload_type" in r), "payload_type == expected")
-        ctx.guarded("envelope", "Ok only with a valid signature for the given domain", s,
-                    lambda c, r, l: (l == "true" and r == "libp2p_core::signed_envelope::SignedEnvelope::verify(self, domain_separation)") or
-                    (l == "false" and r == "Not(libp2p_core::signed_envelope::SignedEnvelope::verify(self, domain_separation))"), "self.verify(domain)")
+        S.guarded(ctx, "envelope", "Ok only for the expected payload type", s, same_type, "payload_type == expected")
+        S.guarded(ctx, "envelope", "Ok only with a valid signature for the given domain", s, sig_ok, "self.verify(domain)")
         r = render(ps.site_expr(s))
         ctx.ob("envelope", "returns this envelope's payload and key", r == "std::result::Result::Ok{0: tuple{0: <std::vec::Vec as std::ops::Deref>::deref(self.payload), 1: self.key}}", s.loc(), r[:200])
     ctx.floor("envelope", "Ok return of payload_and_signing_key", oks(ps), 1)
-    v = ctx.body(C, SE + r"verify$")
+    v = S.canon_args(ctx.body(C, SE + r"verify$"), ["self", "domain_separation"])
     sp = v.call_sites(r"signed_envelope::signature_payload$")
     kv = v.call_sites(r"libp2p_identity::PublicKey::verify$")
     ok = len(sp) == 1 and render(v.site_expr(sp[0])).startswith("libp2p_core::signed_envelope::signature_payload(domain_separation, ") and "self.payload_type" in render(v.site_expr(sp[0])) and "self.payload)" in render(v.site_expr(sp[0]))
@@ -65,7 +180,7 @@ def check(ctx):
     ctx.ob("envelope", "verify uses the envelope's own key and signature", ok, kv[0].loc() if kv else "", render(v.site_expr(kv[0]))[:260] if kv else "")
     r0 = [x for x in v.defs[0]]
     ctx.ob("envelope", "verify returns the signature check result", len(r0) == 1 and r0[0][0] == "call" and kv and r0[0][1] == kv[0].bb, msg="result = key.verify(..)")
-    n = ctx.body(C, SE + r"new$")
+    n = S.canon_args(ctx.body(C, SE + r"new$"), ["key", "domain_separation", "payload_type", "payload"])
     sp2 = n.call_sites(r"signed_envelope::signature_payload$")
     sg = n.call_sites(r"libp2p_identity::Keypair::sign$")
     ok = len(sp2) == 1 and re.match(r"^libp2p_core::signed_envelope::signature_payload\(domain_separation, .*\(payload_type\), .*\(payload\)\)$", render(n.site_expr(sp2[0]))) is not None
@@ -75,7 +190,7 @@ def check(ctx):
     for s in oks(n):
         r = render(n.site_expr(s))
         ctx.ob("envelope", "stored fields are the signed ones", "key: libp2p_identity::Keypair::public(key)" in r and "payload_type: payload_type" in r and "payload: payload" in r and "signature: " in r and "Keypair::sign(" in r, s.loc(), r[:300])
-    spb = ctx.body(C, r"signed_envelope::signature_payload$")
+    spb = S.canon_args(ctx.body(C, r"signed_envelope::signature_payload$"), ["domain_separation", "payload_type", "payload"])
     ex = [s for s in spb.call_sites(r"Vec::extend_from_slice$")]
     args = [render(spb.site_expr(s)[2][1]) for s in ex]
     want = ["usize(std::string::String::len(domain_separation)", "as_bytes(domain_separation)", "usize(core::slice::len(payload_type)", "payload_type", "usize(core::slice::len(payload)", "payload"]
@@ -89,24 +204,26 @@ def check(ctx):
         ctx.ob("envelope", "decoding maps each wire field to its own field", re.search(r"payload_type: .*\.payload_type, payload: .*\.payload, signature: .*\.signature", r) is not None and "try_decode_protobuf(" in r and ".public_key" in r, s.loc(), r[:300])
     # ---- peer record
     PR = r"peer_record::PeerRecord::"
-    fi = ctx.body(C, PR + r"from_signed_envelope_impl$")
+    fi = S.canon_args(ctx.body(C, PR + r"from_signed_envelope_impl$"), ["envelope", "domain", "payload_type"])
+
+    def checked(e, idx):        # component idx of the (payload, signing key) pair returned by the envelope check
+        return S.has(S.norm(e), lambda x: x[0] == "field" and x[2] == idx and callee_is(x[1], r"^ok$") and callee_is(x[1][2][0], r"SignedEnvelope::payload_and_signing_key$"))
+    rec_id = lambda e: S.has_call(e, r"PeerId::from_bytes$") and S.has_field(e, "peer_id") and checked(e, "0") and not S.has_call(e, r"PublicKey::to_peer_id$")
+    signer_id = lambda e: callee_is(S.peel(e), r"PublicKey::to_peer_id$") and checked(e, "1")
+    ids = S.rel_edges(fi, rec_id, signer_id)
+    env_ok = set()
+    for x in fi.call_sites(SE + r"payload_and_signing_key$"):
+        env_ok |= S.call_outcome_edges(fi, x)[0]
     for s in oks(fi):
-        ctx.guarded("record", "Ok only if record.peer_id == signer's peer id", s,
-                    lambda c, r, l: l == "false" and r.startswith("std::cmp::PartialEq::ne(") and "PeerId::from_bytes(" in r and "to_peer_id(" in r, "peer_id == signing_key.to_peer_id()")
-        ctx.guarded("record", "Ok only if the envelope check passed", s, lambda c, r, l: l == "Continue" and "payload_and_signing_key(envelope, " in r and "PeerRecord::decode" not in r.split("payload_and_signing_key")[0], "payload_and_signing_key(..)?")
+        S.guarded(ctx, "record", "Ok only if record.peer_id == signer's peer id", s, ids["eq"], "peer_id == signing_key.to_peer_id()")
+        S.guarded(ctx, "record", "Ok only if the envelope check passed", s, env_ok, "payload_and_signing_key(..)?")
     ctx.floor("record", "Ok return of from_signed_envelope_impl", oks(fi), 1)
     cs = fi.call_sites(SE + r"payload_and_signing_key$")
     ok = len(cs) == 1 and re.match(r"^libp2p_core::signed_envelope::SignedEnvelope::payload_and_signing_key\(envelope, <std::string::String as std::convert::From>::from\(domain\), payload_type\)$", render(fi.site_expr(cs[0]))) is not None
     ctx.ob("record", "envelope is checked with the given domain and payload type", ok, cs[0].loc() if cs else "", render(fi.site_expr(cs[0]))[:200] if cs else "")
-    ne = [bi for bi in fi.live if fi.switch_info(bi) and render(fi.switch_info(bi)[0]).startswith("std::cmp::PartialEq::ne(")]
-    mir.RENDER_MAX[0] = 30
-    for bi in ne:
-        cond = fi.switch_info(bi)[0]
-        a, b2 = render(cond[2][0]), render(cond[2][1])
-        ctx.ob("record", "compared key is the envelope's verified signing key; id is decoded from the verified payload",
-               "payload_and_signing_key(" in b2 and "@Continue.0.1" in b2 and "PeerRecord as prost::Message>::decode(" in a.replace("proto::", "") or ("@Continue.0.1" in b2 and "decode(" in a and "@Continue.0.0" in a),
-               "%s:%d" % (fi.file, fi.blocks[bi]["term"].get("l", 0)), (a[-200:] + " != " + b2[-200:]))
-    mir.RENDER_MAX[0] = 14
+    cmps = [bi for bi in fi.live if fi.switch_info(bi) and S.cmp_of(fi.switch_info(bi)[0]) and any(rec_id(x) for x in S.cmp_of(fi.switch_info(bi)[0])[1:]) and any(signer_id(x) for x in S.cmp_of(fi.switch_info(bi)[0])[1:])]
+    ctx.ob("record", "compared key is the envelope's verified signing key; id is decoded from the verified payload", len(cmps) >= 1,
+           "%s:%d" % (fi.file, fi.blocks[cmps[0]]["term"].get("l", 0)) if cmps else "", "PeerId::from_bytes(decode(checked payload).peer_id) vs (checked signing key).to_peer_id()")
     pairs = {}
     for fn in ("from_signed_envelope", "from_signed_envelope_interop", "new", "new_interop"):
         b = ctx.body(C, PR + fn + "$")
@@ -119,7 +236,7 @@ def check(ctx):
     ctx.ob("record", "interop pair: new_interop and from_signed_envelope_interop use the same (domain, payload type)", pairs.get("new_interop") == pairs.get("from_signed_envelope_interop") == ("STANDARD_DOMAIN_SEP", "STANDARD_PAYLOAD_TYPE"), msg=str(pairs))
     vals = {k: prog.const(C, r"peer_record::%s$" % k).get("s") for k in ("LEGACY_DOMAIN_SEP", "LEGACY_PAYLOAD_TYPE", "STANDARD_DOMAIN_SEP")}
     ctx.ob("record", "legacy and interop domains differ", vals["LEGACY_DOMAIN_SEP"] and vals["STANDARD_DOMAIN_SEP"] and vals["LEGACY_DOMAIN_SEP"] != vals["STANDARD_DOMAIN_SEP"], msg=str(vals))
-    ni = ctx.body(C, PR + r"new_impl$")
+    ni = S.canon_args(ctx.body(C, PR + r"new_impl$"), ["key", "addresses", "domain", "payload_type"])
     cs = ni.call_sites(SE + r"new$")
     ok = len(cs) == 1 and re.match(r"^libp2p_core::signed_envelope::SignedEnvelope::new\(key, <std::string::String as std::convert::From>::from\(domain\), .*to_vec\(payload_type\), ", render(ni.site_expr(cs[0]))) is not None
     ctx.ob("record", "new_impl signs with the given key, domain and payload type", ok, cs[0].loc() if cs else "", render(ni.site_expr(cs[0]))[:240] if cs else "")
